@@ -199,6 +199,9 @@ func (r *run) reset(initImg int) {
 }
 
 func (r *run) opFor(s step) func(ctx context.Context) (string, int, string) {
+	if s.A == "ro" {
+		return r.w.lookupRO
+	}
 	if s.A[0] == 'r' {
 		return r.w.lookup
 	}
@@ -311,15 +314,19 @@ func parallel(dir, prefix string, bhs []behaviour, outPath string) {
 		wg.Add(1)
 		go func(k int) {
 			defer wg.Done()
-			worlds := map[[2]int]*world{}
+			worlds := map[[3]int]*world{}
 			for i := k; i < len(bhs); i += n {
 				bh := bhs[i]
-				w := worlds[bh.Lay]
+				key := [3]int{bh.Lay[0], bh.Lay[1], 0}
+				if bh.InitImg == 0 {
+					key[2] = 1 // first write into a never-written block
+				}
+				w := worlds[key]
 				if w == nil {
 					var err error
-					w, err = newWorld(filepath.Join(dir, fmt.Sprintf("%s%d%d-%d", prefix, bh.Lay[0], bh.Lay[1], k)), bh.Lay)
+					w, err = newWorldKind(filepath.Join(dir, fmt.Sprintf("%s%d%d%d-%d", prefix, key[0], key[1], key[2], k)), bh.Lay, key[2] == 1)
 					must(err)
-					worlds[bh.Lay] = w
+					worlds[key] = w
 				}
 				res[i] = runBehaviour(w, bh)
 			}
